@@ -119,6 +119,17 @@ def oracle(ctx):
 
         def _getparamnames(self, prefix=""):
             return [prefix + "a", prefix + "Bmat", prefix + "dvec"]
+    class TOp(xt.LinearOperator):
+        """0.5 * w^T (plain transpose), matrix-free; holds the tensor it is given under its own parameter name"""
+        def __init__(self, w):
+            super().__init__(shape=w.shape, is_hermitian=False, dtype=w.dtype, device=w.device)
+            self.w = w
+
+        def _mv(self, x):
+            return 0.5 * torch.matmul(self.w.transpose(-2, -1), x.unsqueeze(-1)).squeeze(-1)
+
+        def _getparamnames(self, prefix=""):
+            return [prefix + "w"]
     for rep in range(ctx.n(6, 40)):
         torch.manual_seed(ctx.seed * 77 + rep)
         dtype = rng.choice([torch.float64, torch.float64, torch.complex128])
@@ -126,7 +137,8 @@ def oracle(ctx):
         nc = rng.randrange(1, 3)
         ba = rng.choice([(), (), (2,)])
         mode = rng.choice(["none", "E", "EM"])
-        kind = rng.choice(["dense", "matrix-free", "composed", "product", "hermitian+general"])
+        kind_list = ["shared-tensor-sum", "dense", "matrix-free", "composed", "product", "hermitian+general"]
+        kind = kind_list[rep] if rep < len(kind_list) else rng.choice(kind_list)       # every kind in every run
         a = torch.tensor(0.7, dtype=dtype, requires_grad=True)
         Bm = (0.3 * torch.randn(*ba, n, n, dtype=dtype)).requires_grad_()
         dv = (2.0 + torch.rand(n, dtype=torch.float64)).to(dtype).requires_grad_()
@@ -152,6 +164,10 @@ def oracle(ctx):
                 return H0 + dense_A0()
             # "product": a matrix-free factor times a dense factor (the adjoint of a product reverses the factors;
             # seeded defect C02/3)
+            # "shared-tensor-sum": the SAME tensor object held under two parameter names, by two terms of a sum (round-3 seed
+            # C02/9: repeated positions of a tensor no longer recorded, and not re-filled on substitution)
+            if kind == "shared-tensor-sum":
+                return dense_A0() + 0.5 * Bm.transpose(-2, -1)
             return dense_A0() @ dense_Q() if kind == "product" else dense_A0()
 
         def dense_M():
@@ -166,6 +182,8 @@ def oracle(ctx):
                 return xt.LinearOperator.m(H0, is_hermitian=True) + MVOp(a, Bm, dv, False)
             if kind == "product":
                 return MVOp(a, Bm, dv, False).matmul(xt.LinearOperator.m(dense_Q(), is_hermitian=False))
+            if kind == "shared-tensor-sum":
+                return MVOp(a, Bm, dv, False) + TOp(Bm)
             return MVOp(a * 0.5, Bm, dv * 0.5, False) + xt.LinearOperator.m(0.5 * dense_A(), is_hermitian=False)
 
         def ref():
